@@ -43,8 +43,12 @@ class Multiline:
             "Inconsistent values for header tag {} found\n".format(tagname)+
             "Previous definition: {}\n".format(prev)+
             "Current definition: {}".format(value))
+      # (the single value is replaced by an array only after the new value
+      # has been accepted: a refused value changes nothing)
+      single = prev
       prev = gfapy.FieldArray(self.get_datatype(tagname), [prev])
-      self._set_existing_field(tagname, prev)
+    else:
+      single = None
     if self.vlevel > 1 or (self.vlevel == 1 and datatype is not None and \
                            datatype != prev.datatype):
       if datatype is not None and datatype == prev.datatype:
@@ -53,6 +57,8 @@ class Multiline:
       prev._vpush(value, datatype, tagname)
     else:
       prev.append(value)
+    if single is not None:
+      self._set_existing_field(tagname, prev)
 
   def field_to_s(self, fieldname, tag = False):
     """
